@@ -720,3 +720,213 @@ Corollary shared_alone_same_pq {A} (cfg : nat -> nat * list (list A)) k ops w s 
 Proof.
   intros H F. apply shared_alone_same; [|exact F]. exists s, off, file. split; [reflexivity|exact H].
 Qed.
+
+
+(* ---------- a pass in which loads fail ---------- *)
+Lemma f_out_cons {Rq} (x : Rq) r : f_out (f_cons x r) = x :: f_out r.
+Proof. destruct r; reflexivity. Qed.
+Lemma f_cons_done {Rq} (x : Rq) r o : f_cons x r = FDone o -> exists o', r = FDone o'.
+Proof. destruct r; cbn; intros H; inversion H. eexists; reflexivity. Qed.
+Lemma f_cons_raised {Rq} (x : Rq) r : f_raised (f_cons x r) = f_raised r.
+Proof. destruct r; reflexivity. Qed.
+
+Section FaultyPassP.
+  Context {St Rq : Type} (next : St -> option (St * Rq)).
+
+  (* whatever fails and whatever the policy: what a pass delivered is what k healthy next() calls deliver, and a
+     pass that ENDED left the reader exhausted *)
+  Lemma f_pass_sound fails : forall fuel b st a,
+    exists k st', rd_nexts next k st = (st', f_out (f_pass next fails fuel b st a))
+                  /\ ((exists o, f_pass next fails fuel b st a = FDone o) -> next st' = None).
+  Proof.
+    induction fuel as [|f IH]; intros b st a; cbn [f_pass].
+    - destruct (next st) as [[st1 r]|] eqn:E; exists 0, st; cbn [rd_nexts f_out]; (split; [reflexivity|]).
+      + intros [o H]. discriminate H.
+      + intros _. exact E.
+    - destruct (next st) as [[st1 r]|] eqn:E.
+      + destruct (fails a).
+        * destruct b as [|b'].
+          -- exists 0, st. cbn [rd_nexts f_out]. split; [reflexivity|]. intros [o H]. discriminate H.
+          -- apply IH.
+        * destruct (IH b st1 (S a)) as (k & st' & Hk & Hd). exists (S k), st'.
+          cbn [rd_nexts]. rewrite E, Hk, f_out_cons. split; [reflexivity|].
+          intros [o H]. apply f_cons_done in H. exact (Hd H).
+      + exists 0, st. cbn [rd_nexts f_out]. split; [reflexivity|]. intros _. exact E.
+  Qed.
+
+  (* more fuel than an exhausting run needs changes nothing; less fuel delivers a prefix *)
+  Lemma rd_nexts_stable : forall k st st' out, rd_nexts next k st = (st', out) -> next st' = None ->
+    forall m, k <= m -> rd_nexts next m st = (st', out).
+  Proof.
+    induction k as [|k IH]; intros st st' out H Hn m Hm.
+    - cbn [rd_nexts] in H. inversion H; subst. destruct m; cbn [rd_nexts]; [reflexivity|]. rewrite Hn. reflexivity.
+    - destruct m as [|m]; [lia|]. cbn [rd_nexts] in *. destruct (next st) as [[st1 r]|]; [|exact H].
+      destruct (rd_nexts next k st1) as [st2 rs] eqn:E. inversion H; subst.
+      rewrite (IH st1 st' rs E Hn m ltac:(lia)). reflexivity.
+  Qed.
+  Lemma rd_nexts_le_prefix : forall k st m, k <= m ->
+    exists rest, snd (rd_nexts next m st) = snd (rd_nexts next k st) ++ rest.
+  Proof.
+    induction k as [|k IH]; intros st m Hm.
+    - exists (snd (rd_nexts next m st)). reflexivity.
+    - destruct m as [|m]; [lia|]. cbn [rd_nexts]. destruct (next st) as [[st1 r]|]; [|exists []; reflexivity].
+      destruct (IH st1 m ltac:(lia)) as [rest Hr].
+      destruct (rd_nexts next m st1) as [s2 r2]. destruct (rd_nexts next k st1) as [s3 r3]. cbn [snd] in *.
+      exists rest. rewrite Hr. reflexivity.
+  Qed.
+
+  (* hence: against a healthy run that exhausts the reader, a pass with failing loads delivered a prefix, and a pass that
+     ENDED delivered all of it - under propagation (b = 0) and under `the same request again` (b > 0) alike *)
+  Theorem f_pass_vs_healthy fails fuel b st a m stm outm :
+    rd_nexts next m st = (stm, outm) -> next stm = None ->
+    (exists rest, outm = f_out (f_pass next fails fuel b st a) ++ rest)
+    /\ (forall o, f_pass next fails fuel b st a = FDone o -> o = outm).
+  Proof.
+    intros Hm Hnone. destruct (f_pass_sound fails fuel b st a) as (k & st' & Hk & Hd).
+    destruct (Nat.le_gt_cases k m) as [Hle|Hgt].
+    - split.
+      + destruct (rd_nexts_le_prefix k st m Hle) as [rest Hr]. rewrite Hm, Hk in Hr. cbn [snd] in Hr.
+        exists rest. exact Hr.
+      + intros o Ho. assert (Hn : next st' = None) by (apply Hd; exists o; exact Ho).
+        rewrite (rd_nexts_stable k st st' _ Hk Hn m Hle) in Hm. inversion Hm; subst.
+        rewrite Ho. reflexivity.
+    - rewrite (rd_nexts_stable m st stm outm Hm Hnone k ltac:(lia)) in Hk. inversion Hk; subst.
+      split; [exists []; rewrite app_nil_r; congruence|].
+      intros o Ho. rewrite Ho in *. cbn [f_out] in *. congruence.
+  Qed.
+
+  (* `the same request again` does complete when the loads that fail are not more than the retries allowed: one failing
+     load, one retry *)
+  Lemma f_pass_retry_never_raises fails j : (forall i, fails i = true -> i = j) ->
+    forall fuel b st a, (a <= j -> 1 <= b) -> f_raised (f_pass next fails fuel b st a) = false.
+  Proof.
+    intros Hj. induction fuel as [|f IH]; intros b st a Hb; cbn [f_pass].
+    - destruct (next st) as [[? ?]|]; reflexivity.
+    - destruct (next st) as [[st1 r]|]; [|reflexivity].
+      destruct (fails a) eqn:Fa.
+      + apply Hj in Fa. subst a. destruct b as [|b']; [specialize (Hb (Nat.le_refl _)); lia|].
+        apply IH. intros H. lia.
+      + rewrite f_cons_raised. apply IH. intros H. apply Hb. lia.
+  Qed.
+End FaultyPassP.
+
+(* ---------- the readers of the library ---------- *)
+Definition s_of {A} (st : pq_state A) : nat := let '(s, _, _, _) := st in s.
+
+Lemma u_next_none c st : u_n c <= s_of st -> u_next c st = None.
+Proof.
+  destruct st as [[[s o] ca] fi]. cbn [s_of]. intros H. destruct c as [ids n cs|cs g]; cbn [u_next u_n] in *.
+  - unfold off_next. destruct (Nat.leb_spec n s); [reflexivity|lia].
+  - rewrite pq_next_eq. destruct (Nat.leb_spec (length (concat g)) s); [reflexivity|lia].
+Qed.
+Lemma u_next_advances c st st1 r : u_next c st = Some (st1, r) -> s_of st1 = s_of st + u_cs c.
+Proof.
+  destruct st as [[[s o] ca] fi]. destruct c as [ids n cs|cs g]; cbn [u_next u_cs s_of].
+  - unfold off_next. destruct (n <=? s); intros H; inversion H. reflexivity.
+  - rewrite pq_next_eq. destruct (length (concat g) <=? s); [discriminate|].
+    destruct (load_groups cs ca fi) as [c1 f1]. destruct (extract_chunk cs c1) as [ch c2].
+    intros H. inversion H. reflexivity.
+Qed.
+(* a healthy complete pass leaves every reader exhausted *)
+Lemma u_nexts_exhausted c : 1 <= u_cs c -> forall fuel st, u_n c <= s_of st + fuel ->
+  u_next c (fst (rd_nexts (u_next c) fuel st)) = None.
+Proof.
+  intros Hcs. induction fuel as [|f IH]; intros st H; cbn [rd_nexts].
+  - cbn [fst]. apply u_next_none. lia.
+  - destruct (u_next c st) as [[st1 r]|] eqn:E; [|cbn [fst]; exact E].
+    pose proof (u_next_advances c st st1 r E) as A.
+    specialize (IH st1 ltac:(lia)). destruct (rd_nexts (u_next c) f st1) as [st2 rs]. cbn [fst] in *. exact IH.
+Qed.
+
+(* THE STATEMENT under failing loads, for every kind of reader, every set of failing loads, both policies: a pass that
+   ended delivered exactly the chunks of the source - every record once, in order, in chunks of at most cs - and a pass
+   whose exception reached the caller delivered a prefix of them *)
+Theorem fault_pass_exactly_once c fails fuel b : 1 <= u_cs c ->
+  let r := f_pass (u_next c) fails fuel b (u_init c) 0 in
+  (forall out, r = FDone out ->
+     map snd out = chunks (u_cs c) (u_rows c) /\ concat (map snd out) = u_rows c
+     /\ Forall (fun ch => 1 <= length ch <= u_cs c) (map snd out))
+  /\ (exists rest, chunks (u_cs c) (u_rows c) = map snd (f_out r) ++ rest).
+Proof.
+  intros Hcs r.
+  pose proof (u_pass_any_state c (u_init c) Hcs) as P. rewrite rd_pass_always in P.
+  pose proof (u_nexts_exhausted c Hcs (u_n c) (u_init c) ltac:(lia)) as X.
+  destruct (rd_nexts (u_next c) (u_n c) (u_init c)) as [stm outm] eqn:E. cbn [fst snd] in *.
+  destruct (f_pass_vs_healthy (u_next c) fails fuel b (u_init c) 0 (u_n c) stm outm E X) as [[rest Hp] Hd].
+  split.
+  - intros out Ho. apply Hd in Ho. subst out. rewrite P. split; [reflexivity|].
+    split; [apply chunks_concat; exact Hcs|apply chunks_bound; exact Hcs].
+  - exists (map snd rest). rewrite <- P, Hp, map_app. reflexivity.
+Qed.
+
+(* one failing load and one retry: the pass does not raise (and, ending, delivers everything by the theorem above) *)
+Theorem fault_retry_once_completes c j fuel : forall out,
+  f_pass (u_next c) (fun i => i =? j) fuel 1 (u_init c) 0 <> FRaised out.
+Proof.
+  intros out H.
+  pose proof (f_pass_retry_never_raises (u_next c) (fun i => i =? j) j
+                (fun i Hi => proj1 (Nat.eqb_eq i j) Hi) fuel 1 (u_init c) 0 (fun _ => Nat.le_refl 1)) as R.
+  rewrite H in R. discriminate R.
+Qed.
+
+(* ---------- the variant `halve the chunk size and rewind by the NEW size` ---------- *)
+Lemma halve_ge fails : forall fuel n cs off a x,
+  In x (concat (map range (f_out (f_pass_halve fails fuel n cs off a)))) -> off <= x.
+Proof.
+  induction fuel as [|f IH]; intros n cs off a x H; cbn [f_pass_halve] in H.
+  - destruct (n <=? off); destruct H.
+  - destruct (n <=? off); [destruct H|]. destruct (fails a).
+    + destruct (cs <=? 1) eqn:C; [destruct H|]. apply IH in H. apply Nat.leb_gt in C.
+      assert (Nat.max 1 (cs / 2) <= cs).
+      { apply Nat.max_lub; [lia|]. apply Nat.div_le_upper_bound; lia. }
+      lia.
+    + rewrite f_out_cons in H. cbn [map concat] in H. apply in_app_or in H. destruct H as [H|H].
+      * unfold range in H. cbn [fst snd] in H. apply in_seq in H. lia.
+      * apply IH in H. lia.
+Qed.
+
+(* one failing load (attempt j = the j-th chunk), chunk size >= 2: the first record of the failed chunk is never
+   requested, although ... *)
+Theorem halve_rewind_loses_records n cs j : 2 <= cs ->
+  forall fuel off a, a <= j ->
+    ~ In (off + (j - a) * cs) (concat (map range (f_out (f_pass_halve (fun i => i =? j) fuel n cs off a)))).
+Proof.
+  intros Hcs. induction fuel as [|f IH]; intros off a Ha H; cbn [f_pass_halve] in H.
+  - destruct (n <=? off); destruct H.
+  - destruct (n <=? off); [destruct H|]. destruct (Nat.eqb_spec a j) as [->|Hne].
+    + destruct (Nat.leb_spec cs 1); [lia|]. apply halve_ge in H.
+      assert (Nat.max 1 (cs / 2) < cs).
+      { apply Nat.max_lub_lt; [lia|]. apply Nat.div_lt; lia. }
+      rewrite Nat.sub_diag in H. lia.
+    + rewrite f_out_cons in H. cbn [map concat] in H. apply in_app_or in H. destruct H as [H|H].
+      * unfold range in H. cbn [fst snd] in H. apply in_seq in H.
+        assert (1 <= j - a) by lia. nia.
+      * replace (off + (j - a) * cs) with ((off + cs) + (j - S a) * cs) in H
+          by (replace (j - a) with (S (j - S a)) by lia; lia).
+        apply (IH (off + cs) (S a)); [lia|exact H].
+Qed.
+(* ... the pass does not raise: nothing tells the caller *)
+Theorem halve_rewind_silent n cs j : 2 <= cs ->
+  forall fuel off a, f_raised (f_pass_halve (fun i => i =? j) fuel n cs off a) = false.
+Proof.
+  intros Hcs fuel. revert cs Hcs.
+  assert (G : forall fuel cs off a, (a <= j -> 2 <= cs) ->
+              f_raised (f_pass_halve (fun i => i =? j) fuel n cs off a) = false).
+  { induction fuel0 as [|f IH]; intros cs off a Hc; cbn [f_pass_halve].
+    - destruct (n <=? off); reflexivity.
+    - destruct (n <=? off); [reflexivity|]. destruct (Nat.eqb_spec a j) as [->|Hne].
+      + specialize (Hc (Nat.le_refl _)). destruct (Nat.leb_spec cs 1); [lia|]. apply IH. intros; lia.
+      + rewrite f_cons_raised. apply IH. intros; apply Hc; lia. }
+  intros cs Hcs off a. apply G. intros _. exact Hcs.
+Qed.
+
+(* the variant refuted: one failing load (the j-th chunk, any j with a record in it), chunk size >= 2 - the pass does not
+   raise, and record j * cs, a record of the source, is in no request it makes *)
+Theorem halve_rewind_refuted n cs j fuel : 2 <= cs -> j * cs < n ->
+  let r := f_pass_halve (fun i => i =? j) fuel n cs 0 0 in
+  f_raised r = false /\ In (j * cs) (seq 0 n) /\ ~ In (j * cs) (concat (map range (f_out r))).
+Proof.
+  intros Hcs Hj r. split; [apply halve_rewind_silent; exact Hcs|]. split; [apply in_seq; lia|].
+  pose proof (halve_rewind_loses_records n cs j Hcs fuel 0 0 (Nat.le_0_l j)) as L.
+  rewrite Nat.sub_0_r in L. exact L.
+Qed.
